@@ -38,6 +38,7 @@ def run(repo, run, tier):
     from .c15 import slots
     slots(repo, run, rule_id="C02.7")
     current_integrator_is_called(repo, run)
+    own_stage_storage(repo, run)
 
 
 # ------------------------------------------------------------------------------------------------
@@ -896,3 +897,31 @@ def current_integrator_is_called(repo, run):
         run.report("C02.8", DS, bind, "the step loop calls `%s`, a reference to the integrator bound once before the loop (`%s`): when a step callback sets the method, the tolerances "
                    "or the kick variables, self.integrator is REPLACED, and every later step of this run is still taken by the old object -- the recorded steps are the update of "
                    "another method's coefficients (or of another kick mask) than the one the system reports" % (name, src(bind)[:60]))
+
+
+# ------------------------------------------------------------------------------------------------
+def own_stage_storage(repo, run):
+    """The stage slopes k_j of a step live in `self.stage_values` from the moment a stage is evaluated until the weighted sums have read it.  That array has to belong to
+    ONE integrator: if it is handed out by a pool / cache shared between instances, an integrator that steps (or is constructed) while another is mid-step -- a
+    right-hand side that itself integrates a sub-system with the same method and shape -- overwrites the outer step's slopes."""
+    rid = run.rule("C02.9", "every store to `self.stage_values` in the integrators is a fresh allocation (zeros / empty / ...) or a reshape / copy of the solver's own result: "
+                            "no instance takes its stage array from a container or factory shared between instances", floor=2)
+    FRESH = {"zeros", "empty", "ones", "zeros_like", "empty_like", "ones_like", "full", "copy", "clone", "array", "stack"}
+    n = 0
+    for q, fn in repo.functions(ITY):
+        for st in walk_no_nested(fn):
+            if isinstance(st, ast.Assign) and any(is_self_attr(t, "stage_values") for t in st.targets):
+                n += 1
+                v = st.value
+                f = (fname(v) or "").split(".")[-1] if isinstance(v, ast.Call) else None
+                ok = f in FRESH or (f == "reshape" and v.args and not isinstance(v.args[0], ast.Call)) or isinstance(v, ast.BinOp)
+                # a dtype / device conversion of the instance's own array
+                if isinstance(v, ast.Call) and isinstance(v.func, ast.Attribute) and v.func.attr in ("to", "astype", "reshape", "copy") and is_self_attr(v.func.value, "stage_values"):
+                    ok = True
+                run.judged(rid, "%s: `%s`" % (q, src(st)[:100]), ok=ok)
+                if not ok:
+                    run.report("C02.9", ITY, st, "%s takes its stage array from `%s`, which is not a fresh allocation: an array obtained from a shared pool / cache is the stage storage "
+                               "of every integrator with the same layout, so a step taken (or an integrator built) inside another integrator's step -- a right-hand side that "
+                               "integrates a sub-system -- overwrites slopes the outer step has not used yet" % (q, src(v)[:60]))
+    if n == 0:
+        raise AnalysisError("no store to self.stage_values found in the integrators")
